@@ -158,7 +158,14 @@ def run(v):
                     "oracle held on all of them" % len(rr_bad),
                     {"theorem_or_correspondence": "correspondence rr_run (Faults/Resumable.v vs internal/resumable_reader.go)",
                      "case_lines": [m["case"]], "model_says": m["model"][:2000]}, False)
+    # Codec layer: the LTX byte layout (coq/Codec) against the real encoder / decoder / compactor / Restore,
+    # every truncation length and bit flip of real files (lib/props/codec_phase.py)
+    from . import codec_phase
+    codec_phase.codec_phase(v, PID)
 
 
 def replay(v, path):
+    from . import codec_phase
+    if codec_phase.is_codec_replay(path):
+        return codec_phase.replay(v, PID, path)
     return F.replay_cases(v, PID, path)
